@@ -417,11 +417,26 @@ h("kd10c_symbuf_clone_to", "zlib-rs/src/deflate/sym_buf/verif_kani.rs", "deflate
 h("ki8c_window_clone_to", "zlib-rs/src/inflate/window/verif_kani.rs", "inflate::window::verif_kani", ["C14"], kernel="KI8c", expect_s=20, timeout=600,
   functions=["inflate::Window::clone_to", "Window::extend"], bounds="W = 8, any history from one extend of <= 12 bytes")
 
-# ki5c_codelens_* (Mode::CodeLens run-length items, harness source kept in ki5_blocks.rs): NOT registered.  Every formulation
-# tried -- symbolic items (timeout 1800 s), concrete code + symbolic count (out of memory at 20 GB), fully concrete item with
-# `fill` unwound (symex 270 s, then out of memory) or modelled by write_bytes (SSA conversion > 18 min) -- failed to finish: the
-# arm stores into `lens[]` inside the 14 KB decoder state at symbolic offsets.  The seeded changes C03a and C04a live there
-# and are therefore not detected (DESIGN.md 7.7).
+# ki5c_codelens_*: Mode::CodeLens run-length items.  Every formulation timed out or ran out of memory (the arm stores into `lens[]`
+# inside the 14 KB decoder state) until CBMC was told to keep arrays up to 2048 elements field-sensitive
+# (--max-field-sensitivity-array-size 2048: propositional reduction 20+ min -> seconds) AND the bit register was made
+# syntactically concrete (a register `code | x << 3` with symbolic x makes the table entry symbolic: symex > 15 min).
+FS_ARRAYS = ["--max-field-sensitivity-array-size", "2048"]
+def CODELENS_US(fill):
+    return DISPATCH_US(3, inner=3) + [("ki5_blocks::codelens_item", None, 24), ("slice::<impl [u16]>::fill", None, fill)]
+CODELENS_ASSUME = ["concrete code-length code {0:2, 1:2, 2:3, 16:3, 17:3, 18:3 bits} installed directly in codes_codes", "inflate_table -> Success stub (tables "
+                   "are not the subject)", "<[u16]>::fill -> plain element loop (bounded by the largest repeat count of the code)",
+                   "CBMC --max-field-sensitivity-array-size 2048"] + STD_STUBS[:0]
+for _s, _r, _rng, _f in ((16, 5, "3..=6", 8), (17, 7, "3..=10", 12), (18, 20, "11..=138", 140)):
+    h("ki5c_codelens_%d_item" % _s, BLK, BP, ["C03", "C02"], kernel="KI5c", expect_s=900, timeout=2400, weight=2, mem_gb=16, unwindset=CODELENS_US(_f), cbmc_args=FS_ARRAYS,
+      functions=["State::dispatch (mode CodeLens, one run-length item with code %d)" % _s],
+      bounds="HLIT 257 + HDIST 30, %d lengths outstanding, the concrete code in the register, extra bits from one symbolic input byte: every repeat "
+             "count %s (short of, exactly at, past HLIT+HDIST); stored values, nothing beyond them, verdict" % (_r, _rng),
+      assumptions=CODELENS_ASSUME)
+    h("ki5c_codelens_%d_suspend" % _s, BLK, BP, ["C04", "C03"], kernel="KI5c", expect_s=170, timeout=1200, weight=2, mem_gb=16, unwindset=CODELENS_US(_f), cbmc_args=FS_ARRAYS,
+      functions=["State::dispatch (mode CodeLens, code %d with its extra bits missing)" % _s],
+      bounds="the concrete code in the register, no input: the call suspends with the register, progress counter and lengths untouched",
+      assumptions=CODELENS_ASSUME)
 
 # ---------------------------------------------------------------- inflate: KI6 fast loop
 h("ki6_fast_loop_room", I + "/ki6_fast.rs", "inflate::verif_kani::ki6_fast", ["C02"], kernel="KI6", expect_s=300, timeout=2400, weight=3, mem_gb=20,
@@ -498,7 +513,7 @@ QUICK = {
     "C03": ["ki5d_match_guard_dispatch", "ki5d_match_guard_friends", "ki5a_head_n2", "ki5a_head_n6", "ki5c_typedo_b3_i0", "ki5c_typedo_b0_i1", "ki5c_stored", "ki5c_table",
             "ki5c_lenlens_order", "ki5d_len_step", "ki5d_dist_step_friends", "ki5d_fixed_tables_are_rfc", "ki5e_check_zlib",
             "ki5e_length_gzip", "ki5b_hcrc"],
-    "C04": ["ki1_bitreader_split", "ki5c_copyblock_resume", "ki5c_stored_trees", "ki5d_match_guard_dispatch", "ki5c_lenlens_order", "ki5b_extra", "ki5d_dist_step_friends",
+    "C04": ["ki1_bitreader_split", "ki5c_copyblock_resume", "ki5c_stored_trees", "ki5d_match_guard_dispatch", "ki5c_codelens_17_suspend", "ki5c_lenlens_order", "ki5b_extra", "ki5d_dist_step_friends",
             "ki7_inflate_copyblock", "ki3_window_extend_ring", "ki5c_typedo_b2_i0"],
     "C05": ["kd1_bitwriter_pack", "kd1_emitters_one_step", "kd1_bitwriter_full_register", "kd10_prime",
             "kd2_static_encode_matches_rfc", "kd2_static_ltree_is_rfc_fixed_code", "kd7_zlib_wrapper", "kd8_quick_finish_n1",
